@@ -31,7 +31,13 @@ type State struct {
 	Ghost  map[string]Value
 	Perm   map[string]*Term
 	Empty  bool // a fresh chain: every store closed and empty, bank ledgers zero
+	Init   *InitOracle
 }
+
+// InitOracle: the (arbitrary but fixed) pre-state of open-world stores, shared by every fork of one chain
+// state. A key first read in a cache that is later discarded — or read independently in two forks of the
+// same state (self-composition, C18) — materialises to the same initial presence/value everywhere.
+type InitOracle struct{ m map[string][]*Entry }
 
 var (
 	balSort  = Sort{K: SUn, Name: "(Array Bytes (Array Str Int))"}
@@ -42,11 +48,11 @@ var (
 )
 
 func newState() *State {
-	return &State{Stores: map[string]*Store{}, Ghost: map[string]Value{}, Perm: map[string]*Term{}}
+	return &State{Stores: map[string]*Store{}, Ghost: map[string]Value{}, Perm: map[string]*Term{}, Init: &InitOracle{m: map[string][]*Entry{}}}
 }
 
 func (s *State) clone() *State {
-	n := &State{Stores: map[string]*Store{}, Bal: s.Bal, Sup: s.Sup, Acc: s.Acc, Meta: s.Meta, Ghost: map[string]Value{}, Perm: map[string]*Term{}, Empty: s.Empty}
+	n := &State{Stores: map[string]*Store{}, Bal: s.Bal, Sup: s.Sup, Acc: s.Acc, Meta: s.Meta, Ghost: map[string]Value{}, Perm: map[string]*Term{}, Empty: s.Empty, Init: s.Init}
 	for k, st := range s.Stores {
 		ns := &Store{Name: st.Name, Closed: st.Closed, Inited: st.Inited}
 		for _, en := range st.Entries {
@@ -64,7 +70,7 @@ func (s *State) clone() *State {
 }
 
 func (s *State) assign(o *State) {
-	s.Stores, s.Bal, s.Sup, s.Acc, s.Meta, s.Ghost, s.Perm, s.Empty = o.Stores, o.Bal, o.Sup, o.Acc, o.Meta, o.Ghost, o.Perm, o.Empty
+	s.Stores, s.Bal, s.Sup, s.Acc, s.Meta, s.Ghost, s.Perm, s.Empty, s.Init = o.Stores, o.Bal, o.Sup, o.Acc, o.Meta, o.Ghost, o.Perm, o.Empty, o.Init
 }
 
 // ---------- context ----------
@@ -299,6 +305,35 @@ func (e *Exec) lookupEntry(c *CtxV, coll *CollV, kv Value) *Entry {
 	if st.Closed {
 		return nil
 	}
+	// the pre-state may already have been read at this key in another fork of the same chain state
+	if c.St.Init != nil {
+		var cands []*Entry
+		for _, ie := range c.St.Init.m[coll.Name] {
+			seen := false
+			for _, x := range st.Entries {
+				if len(x.Key) > 0 && len(ie.Key) > 0 && &x.Key[0] == &ie.Key[0] {
+					seen = true
+				}
+			}
+			if !seen {
+				cands = append(cands, ie)
+			}
+		}
+		if len(cands) > 0 {
+			alts := make([]*Term, len(cands)+1)
+			var none []*Term
+			for i, ie := range cands {
+				alts[i] = keysEq(ie.Key, k)
+				none = append(none, Not(alts[i]))
+			}
+			alts[len(cands)] = And(none...)
+			if i := e.decide(alts); i < len(cands) {
+				en := &Entry{Key: cands[i].Key, KeyV: cands[i].KeyV, Present: cands[i].Present, Val: deepCopy(cands[i].Val)}
+				st.Entries = append(st.Entries, en)
+				return en
+			}
+		}
+	}
 	name := fmt.Sprintf("st.%s{%d}", coll.Name, len(st.Entries))
 	p := e.fresh(name+".present", BoolSort)
 	en := &Entry{Key: k, KeyV: kv}
@@ -308,6 +343,9 @@ func (e *Exec) lookupEntry(c *CtxV, coll *CollV, kv Value) *Entry {
 	}
 	st.Entries = append(st.Entries, en)
 	e.inits = append(e.inits, initRec{Coll: coll.Name, Key: k, Present: en.Present, Val: deepCopy(en.Val)})
+	if c.St.Init != nil {
+		c.St.Init.m[coll.Name] = append(c.St.Init.m[coll.Name], &Entry{Key: k, KeyV: kv, Present: en.Present, Val: deepCopy(en.Val)})
+	}
 	return en
 }
 
